@@ -216,6 +216,30 @@ class Real:
         j["io"] = got[0] if got else None
         return j["io"]
 
+    def job_io_mid(self, jid, k):
+        """the I/O part of page-out job `jid` with a PurgeRequest for `k` served by the main loop while the writer thread is
+        inside Disk._page_out between attaching the segment and unlinking it (hook on the `open` of cascade.shm.disk).
+        Returns (io result, was the window reached)."""
+        import builtins
+        import cascade.shm.disk as disk_mod
+        j = self.jobs.pending[jid]
+        got, reached = [], []
+        args = j["args"][:-1] + (lambda ok: got.append(bool(ok)),)
+
+        def hooked_open(*a, **kw):
+            f = builtins.open(*a, **kw)
+            if not reached:
+                reached.append(True)
+                self.purge(k)
+            return f
+        disk_mod.open = hooked_open
+        try:
+            j["fn"](*args)
+        finally:
+            del disk_mod.open
+        j["io"] = got[0] if got else None
+        return j["io"], bool(reached)
+
     def job_cb(self, jid):
         j = self.jobs.pending.pop(jid)
         j["args"][-1](j["io"])
@@ -312,6 +336,8 @@ class Runner:
         self.fails = {}        # kind -> (kind, what, op index): first oracle failure of each kind
         self.stale_evicted = set()   # keys whose dataset was sent to disk while still `created` (stale writer)
         self.dropped_open = set()    # keys whose dataset vanished (purge, failed page-out) while its writer had not closed
+        self.orphans = set()         # keys whose dataset vanished while a disk job for it was still pending
+        self.orphan_key_reused = False
         self.prev_status = {}
         self.nops = 0
         self.stats = {}
@@ -324,6 +350,10 @@ class Runner:
     def _flag(self, kind, what, **sig):
         if kind not in self.fails:
             sig = dict(sig, kind=kind, unsafe_purge=self.unsafe_purge)
+            if self.unsafe_purge:
+                # the mechanism of the known purge-in-flight findings: the key of a dataset dropped while its disk job was
+                # still pending has been allocated again before that job ran (the orphaned job then acts on the new allocation)
+                sig["orphan_key_reused"] = self.orphan_key_reused
             self.fails[kind] = (kind, what, self.nops, sig)
 
     @property
@@ -377,6 +407,13 @@ class Runner:
         for k in self.prev_status:
             if k not in status and any(g["k"] == k and not g["closed"] for g in self.grants):
                 self.dropped_open.add(k)
+        pending_keys = {j["k"] for j in obs["jobs"]}
+        for k in self.prev_status:
+            if k not in status and k in pending_keys:
+                self.orphans.add(k)
+        self.orphans &= pending_keys
+        if any(k in status and self.prev_status.get(k) is None for k in self.orphans):
+            self.orphan_key_reused = True      # allocated again while the orphaned job is still pending
         self.prev_status = status
         for r in self.readers:
             if r["bytes"] is None:
@@ -580,6 +617,22 @@ class Runner:
             return None
         jid = ids[op["idx"] % len(ids)]
         inj = op.get("inj", "ok")
+        job = self.real.jobs.pending[jid]
+        if op.get("mid_purge") and job["kind"] == "out" and inj == "ok":
+            # a purge of the job's own key served while the writer thread is between write and unlink
+            k = self.real.name2key.get(job["args"][0])
+            if k is not None:
+                d = self.real.m.datasets.get(k)
+                if d is not None and not d.ongoing_reads and d.status.name in UNSAFE:
+                    self.unsafe_purge = True
+                    self._stat("purge:unsafe-status")
+                try:
+                    out, reached = self.real.job_io_mid(jid, k)
+                except Exception as e:
+                    out, reached = "exception:" + _exc(e), True
+                self._stat("io-mid-purge:%s:%s" % ("window" if reached else "no-window", out))
+                self._emit({"op": "ioMid", "id": jid, "k": k} if reached else {"op": "io", "id": jid, "inj": "ok"}, out)
+                return out
         try:
             out = self.real.job_io(jid, inj)
         except Exception as e:
@@ -742,6 +795,8 @@ def gen_and_run(rng, cfg):
             elif kind == "io":
                 r = rng.random()
                 op = {"op": "io", "idx": rng.randrange(4), "inj": "ok" if r < 0.8 else "fail" if r < 0.92 else "failLate"}
+                if cfg["unsafe"] and r < 0.3:
+                    op["mid_purge"] = True        # the purge races the writer thread of the job (only in `unsafe` histories)
             elif kind == "cb":
                 op = {"op": "cb", "idx": rng.randrange(4)}
             elif kind == "bogus":
